@@ -1345,3 +1345,42 @@ def check_frame(target, modifies=(), types=None, values=None, use_defaults=()):
     return {"params": params, "effects": eff, "assumed": sorted(A.assumed), "global_writes": sorted(set(A.global_writes)),
             "functions": sorted(A.functions_seen), "error": err, "steps": A.steps,
             "file": mod.path, "line": fnode.lineno, "sha": mod.sha(fnode)}
+
+
+def check_owned(target, fields, use_defaults=()):
+    """target: `file.py::Class.__init__`.  Instantiates the class with every constructor parameter an argument root (or, for
+    the names in use_defaults, the constructor's own default object) and reports, for each named attribute of the new object,
+    the roots (arguments, default-argument objects, module-level objects) that the object stored there may BE - as opposed
+    to contain elements of.  An attribute whose object is one of those is shared with the caller (or with every later call):
+    modifying it through the new object modifies the caller's / the shared object.
+    -> dict(shared={attr: [roots]}, missing=[attrs never assigned], error, file, line, sha)"""
+    mod, fnode, clsnode = find_function(target)
+    A = FrameAnalysis()
+    a = fnode.args
+    pos = [x.arg for x in a.posonlyargs + a.args][1:]
+    args, kw = [], {}
+    for p in pos:
+        if p in use_defaults:
+            continue
+        v = AV({p}, {p})
+        if any(q in use_defaults for q in pos[:pos.index(p)]):
+            kw[p] = v
+        else:
+            args.append(v)
+    for p in a.kwonlyargs:
+        kw[p.arg] = AV({p.arg}, {p.arg})
+    err, shared, missing = None, {}, []
+    try:
+        obj = A.instantiate(clsnode, mod, args, kw, fnode)
+        for attr in fields:
+            f = (obj.fields or {}).get(attr)
+            if f is None:
+                missing.append(attr)
+            elif f.selfs:
+                shared[attr] = sorted(f.selfs)
+    except Budget:
+        err = "analysis budget exhausted"
+    except RecursionError:
+        err = "analysis recursion limit"
+    return {"shared": shared, "missing": missing, "error": err, "assumed": sorted(A.assumed), "functions": sorted(A.functions_seen),
+            "file": mod.path, "line": fnode.lineno, "sha": mod.sha(fnode)}
